@@ -139,7 +139,8 @@ namespace bxdecay0 {
     if (! std::isnan(_config_.activity_Bq)) {
       activity_Bq = _config_.activity_Bq;
     }
-    std::exponential_distribution<> decay_timer(activity_Bq);
+    // The distribution requires a strictly positive rate, even when it is not used (no activity):
+    std::exponential_distribution<> decay_timer(std::isnan(activity_Bq) ? 1.0 : activity_Bq);
 
     // Store config/information in the file header:
     std::time_t now_time = std::time(0);
@@ -209,6 +210,10 @@ namespace bxdecay0 {
       }
     }
     fevent.close();
+    if (!fevent) {
+      // The completion marker must not be written if the events could not all be stored:
+      throw std::runtime_error("bxdecay0::driver::run: Cannot store the decay events in file '" + event_filename + "'!");
+    }
     finfo << "@status=" << "0" << std::endl;
     finfo.close();
     decay0.reset();
